@@ -24,6 +24,7 @@ type scen struct {
 	steps  int      // random steps
 	script []string // scripted steps (instead of random ones)
 	long   bool     // directives with 16–128 KiB protocol IDs: op lines are abbreviated in the report
+	bulk   bool     // hundreds of directives: op lines are abbreviated in the report
 	free   bool     // no model comparison at all (64–128 KiB protocol IDs: a model query per step costs seconds): real-enabled actions + the model-independent monitors only
 }
 
@@ -41,6 +42,7 @@ type runner struct {
 	hits     map[string]bool
 	last     string // last model line
 	endsDone map[int]bool
+	freeDone bool
 }
 
 func kvmap(ans string) map[string]string {
@@ -61,7 +63,20 @@ func (r *runner) check(branch string) bool {
 	r.last = line
 	want := canon(ans)
 	got := ""
-	waitUntil(func() bool { got = r.w.observe(); return got == want })
+	// wait until the real system shows the model's state — or has been at rest in ANOTHER state for
+	// a while (nothing runnable, observation unchanged for ≥ 400 ms): then it will not get there
+	lastObs, since := "", time.Now()
+	waitUntil(func() bool {
+		got = r.w.observe()
+		if got == want {
+			return true
+		}
+		if got != lastObs || quiet.Busy() != 0 {
+			lastObs, since = got, time.Now()
+			return false
+		}
+		return time.Since(since) > 400*time.Millisecond
+	})
 	r.kvs = kvmap(ans)
 	r.q = r.kvs["q"] == "1"
 	mon, key := "", "solicitsys.step:"+branch
@@ -77,6 +92,10 @@ func (r *runner) check(branch string) bool {
 				}
 			}
 		}
+	}
+	if r.sc.bulk && len(line) > 3000 {
+		line = line[:1200] + "…[abbreviated: " + fmt.Sprint(len(r.ops)) + " ops; the directives are bulk/A/<i>, bulk/B/<i> and bulk/common-1..3]…" + line[len(line)-300:]
+		r.last = line
 	}
 	if r.sc.long && len(line) > 3000 {
 		line = line[:1500] + "…[abbreviated: protocol IDs / contexts of 16–128 KiB, PRNG bytes of this seed]…" + line[len(line)-300:]
@@ -103,10 +122,25 @@ func (r *runner) addDir(side, k int) {
 			}
 		}
 	}
+	late := false
+	r.w.mtx.Lock()
+	for s, sr := range r.w.streams {
+		if !bytes.Equal(sr.hash, h) {
+			continue
+		}
+		inFlight := false
+		for _, x := range r.w.arriving[side] {
+			inFlight = inFlight || x == s
+		}
+		if sr.opener == side || !inFlight {
+			late = true
+		}
+	}
+	r.w.mtx.Unlock()
 	n.mtx.Lock()
 	id := n.nextDir
 	n.nextDir++
-	ds := &dirState{id: id, spec: spec, early: early, n: n}
+	ds := &dirState{id: id, spec: spec, early: early, late: late, n: n}
 	n.dirs[id] = ds
 	n.mtx.Unlock()
 	di, ref, err := n.tb.Bus.AddDirective(link_solicit.NewSolicitProtocol(protocol.ID(spec.pid), spec.ctx, spec.peer, spec.tpt), ds)
@@ -388,6 +422,7 @@ func (r *runner) settleReal() {
 // seeded random order), and the safety / settled monitors — which use no model and no hash
 // format — are evaluated on what the real controllers did.
 func (r *runner) freeRun(rest []string) {
+	r.freeDone = true
 	r.e.rep.Branches["freerun"]++
 	drain := func() {
 		for i := 0; i < 300; i++ {
@@ -440,6 +475,13 @@ func (e *engine) runScenario(sc scen) {
 	defer w.close()
 	r := &runner{e: e, w: w, sc: sc, hits: map[string]bool{}, endsDone: map[int]bool{}}
 	r.byPool[0], r.byPool[1] = map[int]int{}, map[int]int{}
+	// when the comparison with the model fails, the run does not stop at the disagreement: the real
+	// system is drained on its own offers and judged by the monitors that use no model
+	defer func() {
+		if r.failed && !r.freeDone && r.linkUp {
+			r.freeRun(nil)
+		}
+	}()
 	for side := 0; side < 2; side++ {
 		for _, k := range sc.pre[side] {
 			r.addDir(side, k)
@@ -594,6 +636,9 @@ func (r *runner) probes() {
 	if rh == nil || n.linkVal == 0 {
 		return
 	}
+	w.mtx.Lock()
+	w.linkGone = true
+	w.mtx.Unlock()
 	rh.RemoveValue(n.linkVal)
 	w.mtx.Lock()
 	cp, from := w.ctrl, w.ctrlFrom
